@@ -2,13 +2,16 @@ package props
 
 import (
 	"fmt"
+	"sync"
 	"sync/atomic"
 	"testing"
+	"time"
 
 	"github.com/bilibili/gengine/engine"
 	"pgregory.net/rapid"
 
 	"verif/gx"
+	"verif/obs"
 )
 
 // C06 - pool requests are isolated from each other.
@@ -26,6 +29,11 @@ type C06Case struct {
 	PoolMax int64   `json:"pool_max"`
 	EM      int     `json:"em"`
 	Ops     []C06Op `json:"ops"`
+	// Stress: ungated variant - Clients goroutines issue Reqs requests each (gates yield only)
+	Stress  bool `json:"stress,omitempty"`
+	Clients int  `json:"clients,omitempty"`
+	Reqs    int  `json:"reqs,omitempty"`
+	Salt    int  `json:"salt,omitempty"`
 }
 
 var c06Keys = []string{"ka", "kb", "kc"}
@@ -54,6 +62,17 @@ func init() {
 			s := sizes[uni(t, "pool_size", 0, len(sizes)-1)]
 			c.PoolMin, c.PoolMax = s[0], s[1]
 			c.EM = uni(t, "em", 1, 4)
+			if pct(t, "stress", 12) {
+				c.Stress = true
+				c.Clients = uni(t, "clients", 3, 12)
+				c.Reqs = uni(t, "reqs", 5, 25)
+				if thorough() {
+					c.Clients = uni(t, "clients_t", 8, 32)
+					c.Reqs = uni(t, "reqs_t", 20, 120)
+				}
+				c.Salt = uni(t, "salt", 0, 1000)
+				return c
+			}
 			n := uni(t, "nops", 3, 30)
 			out := 0
 			for i := 0; i < n; i++ {
@@ -88,6 +107,12 @@ func init() {
 			h.pool = p
 			defer h.gates.ReleaseAll()
 			names := []string{"r_who", "r_ka", "r_kb", "r_kc"}
+			if c.Stress {
+				x.Class("stress-variant")
+				x.NonTrivial()
+				c06Stress(x, c, h, names)
+				return
+			}
 			nextID := int64(1000)
 			maxParked := 0
 			keySets := map[string]bool{}
@@ -224,6 +249,86 @@ func init() {
 			}
 		},
 	})
+}
+
+// c06Stress: many client goroutines, no parking (every gate only yields); each request
+// checks its own result map and payloads against its own id.
+func c06Stress(x *Ctx, c *C06Case, h *poolHarness, names []string) {
+	type outcome struct{ msg string }
+	errs := make(chan outcome, c.Clients*c.Reqs)
+	done := make(chan struct{})
+	var wg sync.WaitGroup
+	for cl := 0; cl < c.Clients; cl++ {
+		wg.Add(1)
+		go func(cl int) {
+			defer wg.Done()
+			for k := 0; k < c.Reqs; k++ {
+				id := int64(100000 + cl*1000 + k)
+				h.gates.Set(fmt.Sprint(id), obs.Yield, (cl+k+c.Salt)%4)
+				mix := cl*31 + k*7 + c.Salt
+				var keys []string
+				for i, key := range c06Keys {
+					if (mix>>uint(i))&1 == 1 {
+						keys = append(keys, key)
+					}
+				}
+				if len(keys) == 0 {
+					keys = []string{c06Keys[mix%3]}
+				}
+				data := map[string]interface{}{"who": &Payload{Id: id}}
+				pls := map[string]*Payload{}
+				for _, key := range keys {
+					pls[key] = &Payload{Id: id}
+					data[key] = pls[key]
+				}
+				call := fullCall(c06Methods[mix%len(c06Methods)], names, mix)
+				res := gx.OnPool(h.pool, call, data, &engine.Stag{})
+				if res.Panic != "" {
+					errs <- outcome{fmt.Sprintf("request %d (%s) panicked: %s", id, call.Method, truncate(res.Panic, 200))}
+					return
+				}
+				inj := map[string]bool{}
+				for _, key := range keys {
+					inj[key] = true
+				}
+				for _, key := range c06Keys {
+					v, has := res.Map["r_"+key]
+					if !inj[key] && has {
+						errs <- outcome{fmt.Sprintf("request %d (%s, keys %v) did not inject %q but its rule returned %v (leak)", id, call.Method, keys, key, v)}
+						return
+					}
+					if inj[key] && has && fmt.Sprint(v) != fmt.Sprint(id) {
+						errs <- outcome{fmt.Sprintf("request %d (%s) got %v for its own key %q", id, call.Method, v, key)}
+						return
+					}
+				}
+				if v, has := res.Map["r_who"]; has && fmt.Sprint(v) != fmt.Sprint(id) {
+					errs <- outcome{fmt.Sprintf("request %d (%s) got identity %v", id, call.Method, v)}
+					return
+				}
+				for key, pl := range pls {
+					if pl.Out != 0 && pl.Out != id {
+						errs <- outcome{fmt.Sprintf("payload %q of request %d was written by request %d", key, id, pl.Out)}
+						return
+					}
+				}
+			}
+		}(cl)
+	}
+	go func() { wg.Wait(); close(done) }()
+	select {
+	case <-done:
+	case <-time.After(3 * hangBound()):
+		hangExit(x, currentCaseJSON, "stress variant: requests did not finish")
+	}
+	close(errs)
+	for e := range errs {
+		x.Violation("stress-cross-talk", "%s", e.msg)
+		return
+	}
+	if atomic.LoadInt64(&h.mismatch) > 0 {
+		x.Violation("cross-talk", "stress variant: a rule saw two different request ids inside one execution; events %v", h.log.Snapshot())
+	}
 }
 
 func TestC06(t *testing.T) { runProp(t, "C06") }
